@@ -6,6 +6,7 @@ fingerprint = hash(key) & mask, computed by the harness from the hash it supplie
 (or from its own FNV-1a when the library default is in use).
 """
 import copy
+import os
 
 from ..core import Scenario, Violation, HarnessError, canon
 from .. import seams
@@ -45,11 +46,17 @@ class CuckooWorld(Scenario):
             "universe": rng.choice((6, 10, 16, 30, 60)),
             "strat": rng.choice(seams.Sched.STRATS[:4]),
             "fanout": rng.chance(2, 3),
+            # complete enumeration of every resolution of the random choices of a kicking insertion (when the
+            # decision tree is small enough), instead of a sample of alternative tapes
+            "fan_all": rng.chance(1, 3),
             "fault_free": rng.chance(1, 8),
             "steps": rng.between(5, self.max_steps),
             # sized by error rate (init_error_rate / load_error_rate / frombytes(error_rate=)) instead of by bytes
             "error_rate": rng.choice((0.2, 0.05, 0.01, 0.001, 1e-05)) if rng.chance(1, 4) else None,
         }
+        if os.environ.get("DSIM_TIER") == "thorough" and rng.chance(1, 4):
+            cfg.update({"capacity": rng.choice((16, 24, 40)), "universe": rng.choice((100, 200, 400)),
+                        "steps": rng.between(60, 160)})
         if cfg["fault_free"]:
             # fault-free configuration: a table large enough that no insertion needs a kick
             cfg["capacity"] = 64
@@ -245,6 +252,27 @@ class CuckooWorld(Scenario):
             return "skip"
         # fan-out: same operation from a deep-copied pre-state under other decision tapes
         fan = step.get("fan") or []
+        if (op == "add" and self.cfg.get("fan_all") and self.fans_left > 0 and self.f.capacity <= 64
+                and 2 * self.f.bucket_size ** min(self.cfg["max_swaps"], 12) <= 256
+                and self.needs_kick(self.fp_of(step["k"]))):
+            # enumerate ALL resolutions of this insertion's random choices from a deep-copied pre-state
+            self.fans_left -= 1
+            tape = []
+            n_br = 0
+            while tape is not None and n_br < 300:
+                f2 = copy.deepcopy(self.f)
+                m2 = dict(self.model)
+                out2, pre2, sched2 = self.run_op(f2, m2, step, {"tape": tape, "strat": "zero"})
+                n_br += 1
+                ctx.fault("evict_fanout")
+                self.judge(f2, m2, pre2, step, out2, branch=f"all:{sched2.consumed}")
+                tape = seams.next_tape(sched2.consumed, sched2.arity)
+            ctx.count("fan_all_ops")
+            ctx.count("fan_all_branches", n_br)
+            if tape is None:
+                ctx.count("fan_all_complete")
+            step["fan"] = []
+            fan = []
         if fan and op == "add" and self.fans_left > 0 and self.needs_kick(self.fp_of(step["k"])):
             self.fans_left -= 1
             for j, spec in enumerate(fan):
